@@ -55,7 +55,7 @@ func genC10(t *rapid.T) schedCase {
 	tag := 0
 	rounds := rapid.IntRange(1, 3).Draw(t, "rounds")
 	for r := 0; r < rounds; r++ {
-		shape := rapid.SampledFrom([]string{"parked-mixed", "parked-updates-then-logins", "parked-updates-then-logins", "free", "parked-flood", "login-storm", "hook-pressure"}).Draw(t, "shape")
+		shape := rapid.SampledFrom([]string{"parked-mixed", "parked-updates-then-logins", "parked-updates-then-logins", "free", "parked-flood", "login-storm", "hook-pressure", "requeue-pressure"}).Draw(t, "shape")
 		switch shape {
 		case "parked-mixed":
 			c.Steps = append(c.Steps, step{Kind: "park"})
@@ -105,6 +105,30 @@ func genC10(t *rapid.T) schedCase {
 				}
 			}
 			c.Steps = append(c.Steps, step{Kind: "release"})
+		case "requeue-pressure":
+			// logins of upgradeable users are handled (their follow-up work is queued by the dispatcher itself), the dispatcher is
+			// stopped again before it gets to that work, and a burst of password changes larger than the queue plus pending logins
+			// arrives behind it
+			c.Steps = append(c.Steps, step{Kind: "park"})
+			for _, u := range []string{"old1", "old2"} {
+				op := opSpec{Kind: "auth", User: u, PW: u + "pw"}
+				c.Steps = append(c.Steps, step{Kind: "launch", Op: &op})
+			}
+			for i, n := 0, rapid.IntRange(1, 3).Draw(t, "reparks"); i < n; i++ {
+				c.Steps = append(c.Steps, step{Kind: "repark"})
+			}
+			for i, n := 0, rapid.IntRange(11, 18).Draw(t, "nupd"); i < n; i++ {
+				tag++
+				op := opSpec{Kind: "update", User: rapid.SampledFrom([]string{"cur1", "cur1", "root"}).Draw(t, "ru"), PW: fmt.Sprintf("n%d", tag)}
+				c.Steps = append(c.Steps, step{Kind: "launch", Op: &op})
+			}
+			for i, n := 0, rapid.IntRange(1, 30).Draw(t, "nlog"); i < n; i++ {
+				u := rapid.SampledFrom([]string{"old1", "old2", "cur1"}).Draw(t, "rl")
+				op := opSpec{Kind: "auth", User: u, PW: u + "pw"}
+				c.Steps = append(c.Steps, step{Kind: "launch", Op: &op})
+			}
+			c.Steps = append(c.Steps, step{Kind: "release"})
+			vlib.Class("shape:requeue-pressure")
 		case "hook-pressure":
 			// changes spread over several rate-limit intervals (hook rounds start), then a burst of changes larger than the notification buffer
 			for i, n := 0, rapid.IntRange(2, 7).Draw(t, "nrounds"); i < n; i++ {
